@@ -78,7 +78,8 @@ func (ts *TagSet) Merge(other *TagSet) *TagSet {
 	if other == nil || ts.Schema != other.Schema {
 		return ts
 	}
-	nl := ts.List // shallow copy
+	nl := make([]*cbc.Definition, len(ts.List), len(ts.List)+len(other.List))
+	copy(nl, ts.List) // never append to the shared list itself
 	for _, t := range other.List {
 		found := false
 		for _, nlt := range nl {
